@@ -37,6 +37,39 @@ Theorem C41_sort_cyclic_yields_all_refuted :
 Proof. exact sort_cyclic_yields_all_refuted_lemma. Qed.
 Print Assumptions C41_sort_cyclic_yields_all_refuted.
 
+(* ---- the Sorter as a reusable object (one Sorter / one iter.Seq used several times) ----
+   [sorter_use s g roots lim] is one iteration of s.Sort(roots, dag): lim = None takes every element,
+   Some k breaks on the k-th; it returns what the consumer saw and the Sorter afterwards. *)
+(* the deferred reset: after ANY use - complete, abandoned after any prefix, panicked - and from any
+   state, the Sorter is in its initial state *)
+Theorem C41_sorter_state_reset_after_any_prefix : forall s g roots lim,
+  snd (sorter_use s g roots lim) = sorter_init.
+Proof. exact sorter_state_reset_after_any_prefix_lemma. Qed.
+Print Assumptions C41_sorter_state_reset_after_any_prefix.
+
+(* hence every iteration in a history of uses of one Sorter behaves like the first one on a new Sorter *)
+Theorem C41_sorter_history_fresh : forall g uses,
+  sorter_history sorter_init g uses
+  = map (fun u : list nat * option nat => fst (sorter_use sorter_init g (fst u) (snd u))) uses.
+Proof. exact sorter_history_fresh_lemma. Qed.
+Print Assumptions C41_sorter_history_fresh.
+
+(* a complete iteration is the sort of the theorems above *)
+Theorem C41_sorter_use_complete : forall g roots,
+  match sort g roots with
+  | TOk o => fst (sorter_use sorter_init g roots None) = UDone o
+  | TPanic s v => exists o, fst (sorter_use sorter_init g roots None) = UPanic o s v
+  | TOutOfFuel => False
+  end.
+Proof. exact sorter_use_complete_lemma. Qed.
+Print Assumptions C41_sorter_use_complete.
+
+(* an iteration abandoned on its k-th element saw exactly the first k elements of the complete one *)
+Theorem C41_sorter_use_cut : forall g roots k, 1 <= k ->
+  fst (sorter_use sorter_init g roots (Some k)) = cut k (fst (sorter_use sorter_init g roots None)).
+Proof. exact sorter_use_cut_lemma. Qed.
+Print Assumptions C41_sorter_use_cut.
+
 (* ------------------------------------------------------------------ trie *)
 Theorem C41_trie_prefixes_total : forall kvs q, trie_prefixes (trie_run trie_empty kvs) q <> None.
 Proof. exact trie_prefixes_total_lemma. Qed.
@@ -67,6 +100,12 @@ Example C41_nonvacuous_sort :
   /\ sort [[1]; [2]; [0]] [0] = TPanic [0; 1; 2] 0
   /\ ~ reachable_cycle [[1; 2]; [3]; [3]; []] [0] /\ reachable_cycle [[1]; [2]; [0]] [0].
 Proof. exact sort_examples. Qed.
+
+Example C41_nonvacuous_sorter :
+  sorter_history sorter_init [[1]; [2]; [3]; []] [([0], Some 2); ([3], None); ([0], None)]
+  = [UStopped [3; 2]; UDone [3]; UDone [3; 2; 1; 0]]
+  /\ sorter_history sorter_init [[1]; [0]; []] [([0], None); ([2], None)] = [UPanic [] [0; 1] 0; UDone [2]].
+Proof. exact sorter_examples. Qed.
 
 Example C41_nonvacuous_trie :
   let kvs := [([97]%N, 1); ([97; 98]%N, 2); ([], 3); ([97; 99]%N, 4); ([97]%N, 5)] in
